@@ -3,6 +3,7 @@ package main
 import (
 	"fmt"
 	"go/constant"
+	"os"
 	"go/token"
 	"go/types"
 	"sort"
@@ -28,6 +29,9 @@ type Frame struct {
 	ct      *Contract
 	top     bool
 	recvName string
+	boxed    []boxedLocal // escaping local variables (heap cells) of this activation
+	goWritten map[*ssa.Alloc]bool // locals assigned by goroutines this activation spawned
+	goUnknown bool                // a goroutine was spawned whose body is not known
 }
 
 type retInfo struct {
@@ -560,6 +564,9 @@ func (u *Unit) loopWrites(fr *Frame, li *loopInfo) (cells []*Cell, heaps []strin
 				switch u.callEffect(fr, i.Common()) {
 				case effAll:
 					all = true
+					if os.Getenv("GOCV_DEBUG") != "" {
+						fmt.Fprintf(os.Stderr, "loop %d of %s: arbitrary effects because of call %s\n", li.ordinal, fr.fn.Name(), u.calleeName(i.Common()))
+					}
 				case effNone:
 				default:
 					for _, h := range u.callFrameHeaps(fr, i.Common()) {
